@@ -295,11 +295,15 @@ pub fn on_runner_thread<R: Send + 'static>(f: impl FnOnce() -> R + Send + 'stati
 
 /// Executes the plan (on the current runner thread, or on a fresh thread) and returns what happened.
 pub fn run_plan(plan: &Plan, keep_trace: bool) -> RunOutput {
+    run_with(plan, keep_trace, run_on_this_thread)
+}
+
+pub fn run_with(plan: &Plan, keep_trace: bool, f: fn(&Plan, bool) -> RunOutput) -> RunOutput {
     if IN_RUNNER.with(|c| c.get()) {
-        return run_on_this_thread(plan, keep_trace);
+        return f(plan, keep_trace);
     }
     let plan = plan.clone();
-    match on_runner_thread(move || run_on_this_thread(&plan, keep_trace)) {
+    match on_runner_thread(move || f(&plan, keep_trace)) {
         Ok(out) => out,
         Err(_) => {
             let mut out = RunOutput::default();
